@@ -127,6 +127,7 @@ class Interp:
         self.calls = []  # (qualname, args, kwargs, site, result)
         self.ext_calls = _Logged(self)  # (name, args, kwargs, site, result)
         self.timeline = []  # chronological ("call"|"ext", name, record)
+        self.interop = []  # (site, ndarray value, index tensor): numpy array indexed by a torch tensor whose length may be 1
         self.reductions = []  # (site, op, reduced dimension symbols, call stack) of every sum / mean / ... over known axes
         self.gen_consumers = []  # scopes of loops that are being fed by a running generator (their names are loop-carried too)
         self.yield_handlers = []  # (index of the first generator frame, callback) of the generators that are running
